@@ -79,6 +79,7 @@ struct data_action
     bool reset = false;
     bool truncate = false;          // TLS: close TCP without sending close-notify
     long long limit = -1;
+    bool other_cert = false;             // TLS: handshake with the other context (a certificate of another CA, no session to resume)
     bool pause = false;                  // send: sleep a few milliseconds between segments so that the reader sees them one by one
 };
 
@@ -117,13 +118,15 @@ inline bool parse_group(const std::string & s, group & g)
                 g.act.reset = !p[3].empty() && p[3][0] == 'r';
                 g.act.truncate = !p[3].empty() && p[3][0] == 't';
                 g.act.pause = p[3].find('p') != std::string::npos;     // "cp": a short pause between the segments
+                g.act.other_cert = p[3].find('b') != std::string::npos; // "cb": the data peer answers with the *other* TLS context (other CA)
             }
             else if (p[0] == "recv" && p.size() == 3)
             {
                 g.act.kind = data_action::recv;
                 unsigned long long l;
                 if (p[1] != "-" && nat(p[1], l)) g.act.limit = static_cast<long long>(l);
-                g.act.reset = p[2] == "r";
+                g.act.reset = !p[2].empty() && p[2][0] == 'r';
+                g.act.other_cert = p[2].find('b') != std::string::npos;
             }
             else if (p[0] == "none") g.act.kind = data_action::touch;
             else return false;
@@ -146,7 +149,7 @@ public:
     std::string received; std::size_t sent = 0; bool saw_eof = false; bool connected = false; std::string err;
     std::atomic<bool> done{false};
     // TLS on the data connection (server side)
-    SSL_CTX *tls_ctx = nullptr; bool tls = false; bool require_reuse = false; bool reused = false; bool tls_ok = false;
+    SSL_CTX *tls_ctx = nullptr, *tls_ctx_other = nullptr; bool tls = false; bool require_reuse = false; bool reused = false; bool tls_ok = false;
 
     ~data_peer() { finish(); close_listener(); }
 
@@ -214,11 +217,14 @@ public:
             {
                 connected = true;
                 int one = 1; setsockopt(fd, IPPROTO_TCP, TCP_NODELAY, &one, sizeof one);
+                // a client that neither reads, writes nor closes (a leaked descriptor) must not block the peer for ever
+                timeval tv{4, 0};
+                setsockopt(fd, SOL_SOCKET, SO_RCVTIMEO, &tv, sizeof tv); setsockopt(fd, SOL_SOCKET, SO_SNDTIMEO, &tv, sizeof tv);
                 SSL *ssl = nullptr;
                 bool go = true;
                 if (tls && tls_ctx)
                 {
-                    ssl = SSL_new(tls_ctx);
+                    ssl = SSL_new(act.other_cert && tls_ctx_other ? tls_ctx_other : tls_ctx);
                     SSL_set_fd(ssl, fd);
                     if (SSL_accept(ssl) != 1) { err = "tls-handshake-failed"; go = false; }
                     else
